@@ -74,7 +74,9 @@ def main():
         return 2
     res = {"name": name, "property": pid}
     try:
-        demo = os.path.join(wt, "_demo.py")
+        # same relative place as in the seeder's worktree (<worktree>/_seed/<x>/demo.py): some demos locate the sources from it
+        os.makedirs(os.path.join(wt, "_seed", "x"))
+        demo = os.path.join(wt, "_seed", "x", "demo.py")
         txt = open(os.path.join(d, "demo.py"), encoding="utf-8").read()
         # demos must not depend on the seeder's own worktree path
         seed_wt = os.path.dirname(os.path.dirname(d))
@@ -111,6 +113,11 @@ def main():
         os.makedirs(out, exist_ok=True)
         shutil.copy(os.path.join(d, "patch.diff"), os.path.join(out, "patch.diff"))
         open(os.path.join(out, "demo.py"), "w", encoding="utf-8").write(open(os.path.join(d, "demo.py"), encoding="utf-8").read())
+        try:
+            prev = json.load(open(os.path.join(out, "meta.json")))
+            meta["earlier_evaluations"] = prev.get("earlier_evaluations", []) + [prev["evaluation"]["checks"]]
+        except Exception:
+            pass
         meta["evaluation"] = res
         meta["what_was_run"] = ["demo.py on the unmodified tree", "git apply patch.diff in a scratch worktree, engine rebuilt",
                                 "repository tests (118 baseline tests)", "demo.py with the change",
